@@ -614,6 +614,17 @@ Definition seed_root (in_place : bool) (data upstream : buffer) : option buffer 
   if in_place then inplace (zeros_like_buf data) upstream
   else if shape_eqb (snd data) (snd upstream) then Some upstream else None.
 
+(* buffer of a tensor after a backward pass: created by zero_() (children) or by the seeding of the root, then any
+   sequence of accumulated pieces, each one written according to [in_place] of its wrapper *)
+Definition start_buffer (seed_in_place is_root : bool) (data upstream : buffer) : option buffer :=
+  if is_root then seed_root seed_in_place data upstream else Some (zeros_like_buf data).
+
+Definition final_grad (seed_in_place is_root : bool) (data upstream : buffer) (vs : list buffer) : option buffer :=
+  match start_buffer seed_in_place is_root data upstream with
+  | Some b => accumulate b vs
+  | None => None
+  end.
+
 (* ---- generated tables: rows ------------------------------------------------------------------------------- *)
 (* how an argument of a public op is filled in when the table is instantiated for a dtype *)
 Inductive argspec :=
